@@ -244,4 +244,4 @@ KNOWN_PREDICATES = {}
 
 # coverage-guided second driver (atheris / libFuzzer through Hypothesis' fuzz_one_input) for the core clauses: (clause, quick runs, thorough runs)
 from harness.covfuzz import cov_clauses  # noqa: E402
-CLAUSES += cov_clauses('C17', CLAUSES, [('wellformed', 3000, 60000), ('corrupted', 1500, 30000)])
+CLAUSES += cov_clauses('C17', CLAUSES, [('wellformed', 3000, 20000), ('corrupted', 1500, 10000)])
